@@ -175,6 +175,24 @@ class SymSeq:
         self.label = label
 
 
+class SList(SymSeq):
+    """mutable list of symbolic length whose items are encoded as terms (decode: term -> value)"""
+    def __init__(self, length, enc_elem, decode, encode, initial_true=False, label="slist"):
+        self.length = length
+        self.enc_elem = enc_elem          # index term -> encoded term
+        self.decode = decode
+        self.encode = encode
+        self.initial_true = initial_true  # models a variable that holds the python value True before its first assignment
+        self.label = label
+        self.elem = lambda i: self.decode(self.enc_elem(to_z3(i)))
+
+    def append(self, v):
+        n, old, t = to_z3(self.length), self.enc_elem, self.encode(v)
+        self.enc_elem = lambda i, n=n, old=old, t=t: z3.If(to_z3(i) == n, t, old(i))
+        self.length = n + 1
+        self.initial_true = False
+
+
 class Env:
     def __init__(self, parent=None, vars=None):
         self.parent = parent
@@ -432,7 +450,7 @@ class Contract:
     def __init__(self, target, setup=None, requires=(), ensures=(), result="Real", pure=True,
                  precondition_asserts=0, returns_closure=None, loops=None, replay=None, prop=None,
                  params=None, ghosts=None, inline_callees=(), post_hook=None, modifies=None,
-                 literal_cases=(), result_term=None, props=None, body_select=None):
+                 literal_cases=(), result_term=None, props=None, body_select=None, post_in_env=False):
         self.target = target
         self.setup = setup
         self.requires = list(requires)
@@ -458,6 +476,8 @@ class Contract:
         # callable(list of top-level statements) -> sub-list to execute: verification of a *cut* of the function
         # (from a program point with the contract's requires as mid-condition); what is skipped is stated in the evidence
         self.body_select = body_select
+        # post_in_env: ensures clauses are mid-conditions over the local variables at the cut (used with body_select)
+        self.post_in_env = post_in_env
 
 
 class LoopContract:
@@ -467,7 +487,9 @@ class LoopContract:
     invariant  list of clause strings
     modifies   {var name: type}   variables assigned in the body (havoced at the cut); type 'Real'|'Int'|'Bool'|callable
     """
-    def __init__(self, index="k", invariant=(), modifies=None, label=None, decreases=None, abort=False):
+    def __init__(self, index="k", invariant=(), modifies=None, label=None, decreases=None, abort=False, ghost_pre=None):
+        # ghost_pre: {name: clause text} evaluated at loop entry (before the havoc), usable as names in the invariant
+        self.ghost_pre = ghost_pre or {}
         # abort: the path ends when it reaches this loop without further obligations (the contract states which other
         # scenario covers that path)
         self.abort = abort
@@ -692,6 +714,11 @@ class Engine:
             return len(v.items) > 0
         if isinstance(v, Vec):
             raise OutsideSubset("truth value of an array")
+        if isinstance(v, SList):
+            nz = num_cmp("!=", v.length, 0)
+            if v.initial_true is False:
+                return nz
+            return b_or(v.initial_true, nz)
         if isinstance(v, SymSeq):
             return num_cmp("!=", v.length, 0)
         if isinstance(v, (Obj, Closure, FuncRef, BoundMethod, Ext, SpecClosure, ClassRef)):
@@ -1075,6 +1102,11 @@ class Engine:
             if attr in base.fn:
                 return base.fn[attr]
             raise OutsideSubset("external {}.{} has no model".format(base.name, attr))
+        if isinstance(base, SList):
+            if attr == "append":
+                return Ext("slist.append", lambda eng, v, _b=base: _b.append(v))
+            if attr == "sort":
+                return Ext("slist.sort", lambda eng, _b=base, **kw: eng.slist_sort(_b, kw))
         if isinstance(base, VList):
             if attr in ("append", "extend", "sort", "pop"):
                 return Ext("list." + attr, lambda eng, *a, _b=base, _at=attr, **kw: eng.list_method(_b, _at, a, kw))
@@ -1103,6 +1135,18 @@ class Engine:
 
     getattr_hooks = []
     str_hooks = []
+
+    def slist_sort(self, lst, kw):
+        """X-SORT: list.sort permutes the list in place (every new item is an old item, length unchanged)"""
+        self.used_assumptions.add("X-SORT: list.sort(key=...) permutes the list in place (length unchanged, items preserved)")
+        n = next(self.fresh_counter)
+        perm = z3.Function("PERM!%d" % n, z3.IntSort(), z3.IntSort())
+        old = lst.enc_elem
+        lst.enc_elem = lambda i, old=old, perm=perm: old(perm(to_z3(i)))
+        lst.sort_perm = perm
+        q = z3.Int("q!sort%d" % n)
+        self.assume(z3.ForAll([q], z3.Implies(z3.And(0 <= q, q < to_z3(lst.length)), z3.And(0 <= perm(q), perm(q) < to_z3(lst.length)))))
+        return None
 
     def list_method(self, lst, attr, args, kw):
         if attr == "append":
@@ -1145,6 +1189,11 @@ class Engine:
         if isinstance(base, VList):
             if isinstance(idx, int):
                 return base.items[idx]
+            if is_sym(idx) and len(base.items) <= 4 and not self.spec_mode:
+                for j in range(len(base.items) - 1):
+                    if self.decide(idx == j, "index=={}".format(j)):
+                        return base.items[j]
+                return base.items[-1]
             raise OutsideSubset("list index %r" % (idx,))
         if isinstance(base, Vec):
             if isinstance(idx, int):
@@ -1615,10 +1664,20 @@ class Engine:
                 raise OutsideSubset("loop contract on non-sequence at line {}".format(st.lineno))
         self.cut_loop(st, env, lc, it)
 
+    def eval_ghost_pre(self, lc, env):
+        for g, text in lc.ghost_pre.items():
+            tree = ast.parse(text.strip(), mode="eval")
+            self.spec_mode += 1
+            try:
+                env.vars[g] = self.ev(tree.body, env)
+            finally:
+                self.spec_mode -= 1
+
     def cut_loop(self, st, env, lc, seq):
         tag = lc.label or "loop@{}".format(self._fn_ordinal(st))
         n = seq.length
         k0 = env.vars.get(lc.index)
+        self.eval_ghost_pre(lc, env)
         # 1. establish
         e0 = Env(env, {lc.index: 0, "__n__": n})
         for i, cl in enumerate(lc.invariant):
@@ -1687,6 +1746,7 @@ class Engine:
                     continue
             return
         tag = lc.label or "while@{}".format(self._fn_ordinal(st))
+        self.eval_ghost_pre(lc, env)
         for i, cl in enumerate(lc.invariant):
             lab, text = clause_parts(cl)
             self.oblige("{}/establish/inv{}[{}]".format(tag, i, lab or " ".join(text.split())[:40]), self.ev_clause(text, env))
